@@ -1,8 +1,209 @@
-from .base import Check
+"""C15 -- cancellation is all-or-nothing at every check; progress monotone, ends at 1.
+
+fault_enumeration: for each (scenario, flavour, schedule seed) the uncancelled
+run counts the N IsCancelled checks reached (hook H1); then the scenario is
+re-executed with the cancel flag set by the k-th check itself, for every k
+(stratified sample when N is large)."""
+import random
+import simdrv, gen
+from .base import Check, key_str
+
+EXPR_MIX = {"add": 6, "sub": 6, "int": 3, "batch": 3, "rot": 3, "trans": 3, "scale": 1, "mirror": 1, "compose": 2, "selfop": 2,
+            "copy": 1, "settol": 1, "simplify": 1, "warp": 1, "ltrans": 1}
+OBS = [("status", 50), ("refine", 6), ("refinelen", 5), ("refinetol", 4), ("hull", 8), ("minksum", 5), ("minkdiff", 3),
+       ("frommesh", 5), ("frommesh32", 2), ("smooth", 6), ("levelset", 6)]
 
 
-class Stub(Check):
+def pick_obs(rng):
+    tot = sum(w for _, w in OBS)
+    r = rng.uniform(0, tot)
+    for k, w in OBS:
+        r -= w
+        if r <= 0:
+            return k
+    return "status"
+
+
+def make_scenario(rng):
+    obs = pick_obs(rng)
+    nset = rng.randint(2, 5)
+    setup = []
+    for _ in range(nset):
+        k = rng.choice(["cube", "sphere", "cyl", "tet", "sphere", "lbox"])
+        setup.append(gen.gen_op(rng, k, "small"))
+        if rng.random() < 0.6:
+            setup.append("rot:%d,%d,%d,%d" % (len(setup) - 1, rng.randrange(1000), rng.randrange(1000), rng.randrange(1000)))
+    expr = []
+    if obs == "status" or rng.random() < 0.3:
+        for _ in range(rng.randint(1, 8)):
+            k = gen.pick(rng, EXPR_MIX)
+            op = gen.gen_op(rng, k, "small")
+            if rng.random() < 0.35 and k in ("add", "sub", "int"):
+                # share a sub-expression: both operands (or one) are the latest result
+                a = op.split(":")[1].split(",")
+                a[0] = '-1'  # the latest result
+                op = k + ":" + ",".join(a)
+            expr.append(op)
+    if obs in ("minksum", "minkdiff"):
+        setup.append("cube:%d,%d,%d,1" % (rng.randrange(100), rng.randrange(100), rng.randrange(100)))
+        setup.append("scale:%d,0,0,0" % (len(setup) - 1))
+        obs_text = "%s:%d" % (obs, rng.randrange(1000))
+        if rng.random() < 0.5:
+            setup.insert(0, "hullpts:%d,%d,0" % (rng.randint(4, 20), rng.randrange(1000)))
+    elif obs == "levelset":
+        obs_text = "levelset:%d,%d,%d,%d" % (rng.randrange(1000), rng.randint(450, 999), rng.randrange(3), rng.randrange(2))
+    elif obs == "smooth":
+        obs_text = "smooth:%d,%d,%d" % (rng.randrange(2), rng.randrange(1000), rng.randrange(1000))
+    elif obs == "status":
+        obs_text = "status"
+    else:
+        obs_text = "%s:%d" % (obs, rng.randrange(1000))
+    return {"setup": ";".join(setup), "expr": ";".join(expr), "obs": obs_text}
+
+
+class C15(Check):
     prop = "C15"
+    level = "fault_enumeration"
+    flavours = ["ser", "par"]
+    assumptions = [
+        "the cancel flag is read only at IsCancelled checks, so setting it at check k is equivalent to Cancel() from another "
+        "thread at any instant between checks k-1 and k",
+        "under the parallel build the order of chunk-level checks is that of the seeded simtbb schedule; the same seed "
+        "replays the same order up to the cancel point",
+        "Minkowski evaluates several internal batches and resets the counters for each: only bounds and final value of "
+        "Progress() are checked there",
+    ]
+
+    def explore(self):
+        rng = random.Random(self.seed * 104729 + 15)
+        quick = self.tier == "quick"
+        stats = {"scenarios": 0, "checks_total": 0, "k_tested": 0, "cancelled": 0, "completed": 0, "steps": 0, "exhaustive_scenarios": 0,
+                 "crashes": 0, "not_reached": 0}
+        obscount, flcount = {}, {}
+        sites = set()
+        samples = []
+        while self.time_left() > 10:
+            jobs = []
+            for _ in range(64):
+                sc = make_scenario(rng)
+                fl = rng.choice(["ser", "par", "par"])
+                args = dict(sc, maxk=400 if quick else 2000, kseed=rng.randrange(1 << 30), budget_ms=6000 if quick else 40000)
+                if fl == "par":
+                    args.update({"W": rng.choice([1, 2, 4, 8]), "stay": rng.choice([30, 60, 85]), "own": 70,
+                                 "seed": rng.randrange(1, 1 << 30), "thr": rng.choice([64, 64, 16])})
+                jobs.append({"flavour": fl, "kind": "c15", "args": args, "timeout": 600})
+            res = self.pool.run_all(jobs, deadline=self.deadline)
+            for j, r in zip(jobs, res):
+                if r.get("skipped"):
+                    continue
+                obs = j["args"]["obs"].split(":")[0]
+                if not r["ok"]:
+                    stats["crashes"] += 1
+                    cls = simdrv.classify_crash(r)
+                    key = {"clause": "crash_" + cls, "obs": obs}
+                    self.add_finding(key, "worker died (%s) in scenario %s: %s" % (cls, j["args"], r.get("stderr", "")[-300:]),
+                                     {"property": "C15", "flavour": j["flavour"], "args": j["args"]})
+                    continue
+                x = r["res"]
+                self.cov["evaluations"] += 1 + x["k_tested"]
+                stats["scenarios"] += 1
+                stats["checks_total"] += x["checks"]
+                stats["k_tested"] += x["k_tested"]
+                stats["cancelled"] += x["cancelled"]
+                stats["completed"] += x["completed"]
+                stats["not_reached"] += x["not_reached"]
+                stats["steps"] += x["total_steps"]
+                if x["k_tested"] >= x["checks"]:
+                    stats["exhaustive_scenarios"] += 1
+                obscount[obs] = obscount.get(obs, 0) + 1
+                flcount[j["flavour"]] = flcount.get(j["flavour"], 0) + 1
+                # a distinct non-trivial case = (scenario, k) whose injected cancel was actually reached and took effect
+                sites.add((j["args"]["setup"], j["args"]["expr"], j["args"]["obs"], j["flavour"], x["cancelled"]))
+                self.cov["distinct_nontrivial"] += x["cancelled"]
+                seen = set()
+                for v in x["viol"]:
+                    clause = v["clause"].split(":")[0]
+                    key = {"clause": clause, "obs": obs}
+                    if clause.startswith("completed_result_differs") or clause.startswith("rebuild_with"):
+                        pass
+                    if key_str(key) in seen:
+                        self.finding_counts[key_str(key)] = self.finding_counts.get(key_str(key), 0) + 1
+                        continue
+                    seen.add(key_str(key))
+                    rep_args = dict(j["args"])
+                    rep_args["k"] = v["k"] if v["k"] > 0 else 1
+                    rep_args.pop("maxk", None)
+                    desc = "scenario setup=[%s] expr=[%s] obs=%s flavour=%s: cancel at check k=%d of %d: %s" % (
+                        j["args"]["setup"], j["args"]["expr"], j["args"]["obs"], j["flavour"], v["k"], x["checks"], v["clause"])
+                    self.add_finding(key, desc, {"property": "C15", "flavour": j["flavour"], "args": rep_args, "k": v["k"]})
+                if len(samples) < 6 and rng.random() < 0.1:
+                    samples.append({"scenario": {k: j["args"][k] for k in ("setup", "expr", "obs")}, "flavour": j["flavour"],
+                                    "checks": x["checks"], "k_tested": x["k_tested"], "cancelled": x["cancelled"],
+                                    "completed": x["completed"]})
+        self.cov.update({
+            "rule": "one evaluation = one execution of a scenario (uncancelled, or with Cancel() injected at the k-th "
+                    "IsCancelled check); distinct non-trivial = injected runs in which the k-th check was reached and the call "
+                    "returned Cancelled (a distinct (scenario, schedule seed, k) crash point that took effect)",
+            "samples": samples, "obs_kinds": obscount, "flavours": flcount, "totals": stats,
+            "fault_kinds_fired": {"cancel_at_check_k": stats["cancelled"] + stats["completed"]},
+            "exhaustive": False,
+            "components": {"real": "manifold library incl. all 117 IsCancelled/phase sites", "stub": "oneTBB runtime scheduler (parallel flavour)"},
+        })
+
+    def reproduce(self, replay, fresh=False):
+        r = self.run_job({"flavour": replay["flavour"], "kind": "c15", "args": replay["args"], "timeout": 600}, fresh)
+        obs = replay["args"]["obs"].split(":")[0]
+        if not r["ok"]:
+            return {"clause": "crash_" + simdrv.classify_crash(r), "obs": obs}, "crash"
+        exp = replay.get("expect")
+        keys = [{"clause": v["clause"].split(":")[0], "obs": obs} for v in r["res"]["viol"]]
+        h = r["res"]["sim"]["hash"] + ":" + str(r["res"]["checks"])
+        for k in keys:
+            if exp is None or key_str(k) == key_str(exp):
+                return k, h
+        return (keys[0], h) if keys else (None, h)
+
+    def minimise(self, finding):
+        rep = {k: (dict(v) if isinstance(v, dict) else v) for k, v in finding["replay"].items()}
+        want = key_str(finding["key"])
+        rep["expect"] = finding["key"]
+        a = rep["args"]
+
+        def still(args):
+            k, _ = self.reproduce(dict(rep, args=args))
+            return k is not None and key_str(k) == want
+
+        # progress/whole-run clauses do not depend on k; others: keep k but shrink the scenario while the clause persists
+        # with *some* k (re-enumerate k after each shrink)
+        def still_any_k(args):
+            b = dict(args)
+            b.pop("k", None)
+            b["maxk"] = 200
+            b["budget_ms"] = 4000
+            return still(b)
+
+        for part in ("expr", "setup"):
+            ops = [o for o in a[part].split(";") if o]
+            if len(ops) > 1:
+                ops2, _ = simdrv.ddmin(ops, lambda o: still_any_k(dict(a, **{part: ";".join(o)})), budget=16)
+                if still_any_k(dict(a, **{part: ";".join(ops2)})):
+                    a = dict(a, **{part: ";".join(ops2)})
+        # find the concrete k again for the shrunk scenario
+        b = dict(a)
+        b.pop("k", None)
+        b["maxk"] = 400
+        r = self.run_job({"flavour": rep["flavour"], "kind": "c15", "args": b, "timeout": 600})
+        if r["ok"]:
+            for v in r["res"]["viol"]:
+                if v["clause"].split(":")[0] == finding["key"]["clause"]:
+                    a = dict(b, k=max(1, v["k"]))
+                    a.pop("maxk", None)
+                    break
+        rep["args"] = a
+        if not still(a):
+            return finding
+        return {"key": finding["key"], "desc": finding["desc"] + " [minimised: setup=%s expr=%s obs=%s k=%s]" % (
+            a["setup"], a["expr"], a["obs"], a.get("k")), "replay": rep}
 
 
-CHECK = Stub()
+CHECK = C15()
